@@ -180,6 +180,11 @@ func Builtin() []Doc {
 		h("host3", `<p>a</p><iframe srcdoc="<p> x </p>"></iframe><style media="screen">@media screen { a { b : c } }</style><img src="data:image/svg+xml,%3Csvg%20xmlns='http://www.w3.org/2000/svg'%3E%3Cpath%20d='M 10 10 L 20 20'/%3E%3C/svg%3E">`),
 		h("urls1", `<a href="https://example.com/dir/page.html">x</a><img src="http://example.com/i.png"><link href="data:text/css;base64,YSB7IGNvbG9yIDogcmVkIDsgfQ=="><a href="https://example.com/other">y</a>`),
 		h("urls2", `<p><a href="http://example.com/">h</a></p><img src="data:image/svg+xml,%3Csvg%20xmlns='http://www.w3.org/2000/svg'%3E%3Cpath%20d='M 10 10 L 20 20'/%3E%3C/svg%3E"><a href="https://example.com/dir/a?b=c">z</a>`),
+		// data: URIs whose media type carries several parameters; an SVG that names its default
+		// style type; a script element that has both a src attribute and a body
+		h("datauri-params", `<a href="data:text/x-note;charset=utf-8;format=flowed;delsp=yes,hello%20world">n</a><img src="data:image/svg+xml;charset=utf-8;a=b;c=d,%3Csvg%20xmlns='http://www.w3.org/2000/svg'%3E%3Cpath%20d='M 10 10 L 20 20'/%3E%3C/svg%3E"><p style=" background : url( 'data:text/plain;charset=us-ascii;x=1;y=2,abc' ) ">p</p>`),
+		h("svg-contentstyletype", `<p>a</p><svg width="10" contentStyleType="text/xsl"><style> a { b : c } </style><path style=" fill : #ff0000 " d="M0 0"/></svg><svg width="10"><style> a { color : #ff0000 } </style></svg><p>b</p>`),
+		h("script-src-body", `<p>a</p><script src="a.js"> var  lib_loaded = 1 + 1 ; </script><script async src="b.js" type="module"> import  x  from  "y" ; </script><style title="t" media="print"> a { b : c } </style>`),
 		h("bad-js", `<DIV CLASS="A">  x  </DIV><script>var a = ;</script><p> tail </p>`),
 		h("bad-css-in-svg", `<p>x</p><svg><style> a { b : ( } </style><path d="M0 0"/></svg>`),
 		{MT: "application/javascript", Name: "builtin/bad1", Src: "builtin", Data: []byte("var x = ;")},
@@ -187,6 +192,9 @@ func Builtin() []Doc {
 		{MT: "application/json", Name: "builtin/bad1", Src: "builtin", Data: []byte(`{"a": [1, 2,, ]}`)},
 		{MT: "text/xml", Name: "builtin/ok1", Src: "builtin", Data: []byte("<?xml version=\"1.0\"?>\n<a>\n  <b c = \"d\"> text </b>\n  <![CDATA[ x < y ]]>\n</a>")},
 		{MT: "image/svg+xml", Name: "builtin/ok1", Src: "builtin", Data: []byte(`<svg xmlns="http://www.w3.org/2000/svg"><style> path { fill : #ff0000 } </style><path style=" stroke : #000000 " d="M 10.00 10.00 L 20.50 20.50 Z"/></svg>`)},
+		{MT: "image/svg+xml", Name: "builtin/contentstyletype-xsl", Src: "builtin", Data: []byte(`<svg xmlns="http://www.w3.org/2000/svg" contentStyleType="text/xsl"><style> path { fill : #ff0000 } </style><path style=" stroke : #000000 " d="M 1 1 L 2 2"/></svg>`)},
+		{MT: "image/svg+xml", Name: "builtin/contentstyletype-css", Src: "builtin", Data: []byte(`<svg xmlns="http://www.w3.org/2000/svg" contentStyleType="text/css" contentScriptType="application/ecmascript"><style> path { fill : #ff0000 } </style><path style=" stroke : #000000 " d="M 1 1 L 2 2"/></svg>`)},
+		{MT: "text/css", Name: "builtin/datauri-params", Src: "builtin", Data: []byte(`a { background : url("data:image/svg+xml;charset=utf8;x=1;y=2;z=3,%3Csvg xmlns='http://www.w3.org/2000/svg'%3E%3C/svg%3E") } b { src : url(data:font/woff2;charset=binary;v=2;w=3;base64,AAEC) }`)},
 		{MT: "text/css", Name: "builtin/datauri", Src: "builtin", Data: []byte(`a { background : url("data:image/svg+xml;base64,PHN2ZyB4bWxucz0iaHR0cDovL3d3dy53My5vcmcvMjAwMC9zdmciPjxwYXRoIGQ9Ik0gMTAgMTAgTCAyMCAyMCIvPjwvc3ZnPg==") ; color : #ffffff }`)},
 	}
 }
